@@ -139,9 +139,7 @@ theorem download_evs (s : Stack) (a : Nat) (r : Resp) : ∀ e ∈ (download s a 
   · simp
   · split
     · simp
-    · split
-      · simp [Ev.isRaised]
-      · split <;> simp [Ev.isRaised]
+    · split <;> simp [Ev.isRaised]
 
 theorem clientRoundTrip_inRT (s : Stack) (a : Nat) : ∀ e ∈ (clientRoundTrip s a).evs, e.inRT = true := by
   unfold clientRoundTrip
@@ -222,7 +220,7 @@ def StepOut.evs : StepOut → List Ev
 theorem raised_inStep {e : Ev} (h : e.isRaised = true) : e.inStep = true := by
   cases e <;> simp_all [Ev.isRaised, Ev.inStep]
 
-theorem rebind_evs (s : Stack) (r : Resp) : ∀ e ∈ (rebind s r).evs, e.inStep = true := by
+theorem rebind_evs (s : Stack) (a : Nat) (r : Resp) : ∀ e ∈ (rebind s a r).evs, e.inStep = true := by
   have hrp : ∀ e, (e = Ev.resend ∨ e ∈ (autoRead s r).2) ∨ e ∈ (parseResp s (autoRead s r).1).evs → e.inStep = true := by
     intro e he
     rcases he with (rfl | he) | he
@@ -233,7 +231,17 @@ theorem rebind_evs (s : Stack) (r : Resp) : ∀ e ∈ (rebind s r).evs, e.inStep
       · rfl
   unfold rebind
   simp only []
-  split <;> simp only [StepOut.evs, List.mem_cons, List.mem_append] <;> exact hrp
+  split
+  · simp only [StepOut.evs, List.mem_cons, List.mem_append]; exact hrp
+  · split
+    · split
+      · simp only [StepOut.evs, List.mem_cons, List.mem_append, List.mem_singleton]
+        intro e he
+        rcases he with he | he
+        · exact hrp e he
+        · simp only [List.not_mem_nil, or_false] at he; subst he; rfl
+      · simp only [StepOut.evs, List.mem_cons, List.mem_append]; exact hrp
+    · simp only [StepOut.evs, List.mem_cons, List.mem_append]; exact hrp
 
 theorem digestResend_evs (fx : Fixes) (s : Stack) (a : Nat) (r : Resp) (re : TOut) :
     ∀ e ∈ (digestResend fx s a r re).evs, e.inStep = true := by
@@ -242,7 +250,7 @@ theorem digestResend_evs (fx : Fixes) (s : Stack) (a : Nat) (r : Resp) (re : TOu
   | resp h =>
     simp only [digestResend]
     split
-    · exact rebind_evs _ _
+    · exact rebind_evs _ _ _
     · simp [StepOut.evs, Ev.inStep]
 
 theorem digestStep_evs (fx : Fixes) (s : Stack) (a : Nat) (ok : Bool) (re : TOut) (r : Resp) :
